@@ -79,6 +79,28 @@ pub fn has_tl_in_batch(b: &Built) -> bool {
     b.flat.sys.iter().any(|s| s.is_tl && s.parent.is_some())
 }
 
+/// KF2 can only bite when a thread-local system inside a batch declares something that conflicts
+/// with a system outside the batches that enclose it (its access is not part of the batch's union)
+pub fn kf2_applicable(b: &Built) -> bool {
+    let f = &b.flat;
+    for t in f.sys.iter().filter(|s| s.is_tl && s.parent.is_some()) {
+        let anc = f.ancestors(t.idx);
+        for x in &f.sys {
+            if x.idx == t.idx || anc.contains(&x.idx) || x.is_batch {
+                continue;
+            }
+            // x lives outside the innermost batch around t
+            if f.ancestors(x.idx).contains(&anc[0]) {
+                continue;
+            }
+            if f.conflict(t.idx, x.idx) {
+                return true;
+            }
+        }
+    }
+    false
+}
+
 fn set_jitter(b: &Built, schedule: &[u16]) {
     for i in 0..b.flat.sys.len() {
         let a = schedule.get(2 * i).cloned().unwrap_or(0) % 6;
@@ -133,7 +155,7 @@ impl SchedProp {
             if let Some(p) = &out.panic {
                 let msg = describe_panic(p);
                 let borrow = msg.contains("already") && msg.contains("borrowed");
-                let key = if borrow && has_tl_in_batch(b) {
+                let key = if borrow && kf2_applicable(b) {
                     "borrow-panic-with-tl-in-batch"
                 } else if borrow {
                     "borrow-panic"
@@ -435,6 +457,11 @@ pub fn nt_differential(b: &Built) -> bool {
         }
     }
     side && writers.values().any(|n| *n >= 2)
+}
+
+pub fn nt_batch(b: &Built) -> bool {
+    let (a, c) = crate::p_layout::c07_interesting(b);
+    a || c
 }
 
 pub fn nt_thread_local(b: &Built) -> bool {
